@@ -501,7 +501,7 @@ fn history_strategy_inner(max_ops: usize) -> BoxedStrategy<DictCase> {
 
 /// Words an integration may import: the vocabulary above plus words the curated dictionary has
 /// (importing a known word must be harmless and the word must still come back from the export).
-const JS_EXTRA: &[&str] = &["hello", "Paris", "the", "KUBERNETES", "javascript", "o'clockish"];
+const JS_EXTRA: &[&str] = &["hello", "Paris", "the", "KUBERNETES", "javascript", "o'clockish", "taller", "apples", "bananas", "oranges", "banana"];
 
 fn js_word(i: u8) -> &'static str {
     let i = i as usize % (VOCAB.len() + JS_EXTRA.len());
@@ -576,6 +576,8 @@ pub fn test_js_history(c: &JsCase, ctx: &mut CaseCtx) -> Result<(), String> {
                     text.push_str(" and");
                 }
                 text.push_str(" an banana here.");
+                // rules that look at the part of speech of curated words an integration may import
+                text.push_str(" She is taller then him. I like apples, bananas and oranges.");
                 let language = if *markdown { Language::Markdown } else { Language::Plain };
                 let got = linter.lint(text.clone(), language);
                 let (other, spelling) = summarise(&got);
